@@ -31,6 +31,7 @@ import (
 	"github.com/vulpemventures/go-elements/address"
 	"github.com/vulpemventures/go-elements/blech32"
 	"github.com/vulpemventures/go-elements/confidential"
+	"github.com/vulpemventures/go-elements/descriptor"
 	"github.com/vulpemventures/go-elements/elementsutil"
 	"github.com/vulpemventures/go-elements/network"
 	"github.com/vulpemventures/go-elements/payment"
@@ -819,6 +820,70 @@ func c18Catalogue() []c18Fn {
 			}
 			return hx(priv.Serialize()) + hx(pub.SerializeCompressed()), nil
 		}},
+		{"descriptor", false, func(g *c18Guard) (string, [][]byte) {
+			_, pub := btcec.PrivKeyFromBytes(c18Scalar(g.r))
+			w, err := descriptor.Parse("elwpkh(" + hx(pub.SerializeCompressed()) + ")")
+			if err != nil {
+				return "err", nil
+			}
+			rs, err := w.Script(nil)
+			if err != nil {
+				return "err-script", nil
+			}
+			var outs [][]byte
+			var sb strings.Builder
+			for _, r := range rs {
+				sb.WriteString(hx(r.Script))
+				outs = append(outs, r.Script)
+			}
+			return fmt.Sprint(w.Type(), w.IsRange(), sb.String()), outs
+		}},
+		{"address.decoders", false, func(g *c18Guard) (string, [][]byte) {
+			// decode, (the caller scribbles over what it got,) decode the same strings again
+			_, pub := btcec.PrivKeyFromBytes(c18Scalar(g.r))
+			_, bk := btcec.PrivKeyFromBytes(c18Scalar(g.r))
+			p := payment.FromPublicKey(pub, []*network.Network{&network.Liquid, &network.Regtest, &network.Testnet}[g.r.Intn(3)], bk)
+			var sb strings.Builder
+			var outs [][]byte
+			for _, m := range adrPayMethods(p) {
+				a, err := guardEnc(m)
+				if err != nil || a == "" {
+					continue
+				}
+				sb.WriteString(a + ":")
+				if b, err := address.FromBase58(a); err == nil {
+					sb.WriteString(hx(b.Data))
+					outs = append(outs, b.Data)
+				}
+				if b, err := address.FromBase58Confidential(a); err == nil {
+					sb.WriteString(hx(b.PublicKey) + hx(b.Data))
+					outs = append(outs, b.PublicKey, b.Data)
+				}
+				if b, err := address.FromBech32(a); err == nil {
+					sb.WriteString(hx(b.Program))
+					outs = append(outs, b.Program)
+				}
+				if b, err := address.FromBlech32(a); err == nil {
+					sb.WriteString(hx(b.PublicKey) + hx(b.Program))
+					outs = append(outs, b.PublicKey, b.Program)
+				}
+				if fc, err := address.FromConfidential(a); err == nil {
+					sb.WriteString(fc.Address + hx(fc.BlindingKey) + hx(fc.Script))
+					outs = append(outs, fc.BlindingKey, fc.Script)
+				}
+				if scr, err := address.ToOutputScript(a); err == nil {
+					sb.WriteString(hx(scr))
+					outs = append(outs, scr)
+				}
+				if hrp, d, err := blech32.Decode(a); err == nil {
+					sb.WriteString(hrp + hx(d))
+					outs = append(outs, d)
+				}
+				ty, _ := address.DecodeType(a)
+				sb.WriteString(fmt.Sprint(ty, ";"))
+			}
+			return sb.String(), outs
+		}},
 		{"pset.v0", false, func(g *c18Guard) (string, [][]byte) {
 			if len(c18Seeds.psetV0B64) == 0 {
 				return "none", nil
@@ -933,7 +998,17 @@ func checkC18Fn(t *Toks) string {
 				return fail("result-aliases-global", f.name)
 			}
 		}
-		// (c) the same call after a batch of other calls
+		// hidden state: the caller overwrites what it was handed (its own data now) ...
+		for _, o := range outs {
+			full := o[:cap(o)]
+			for j := range full {
+				full[j] ^= 0xff
+			}
+		}
+		if alHexs(alGlobals()) != g0 {
+			return fail("result-aliases-global", f.name)
+		}
+		// (c) ... then the same call after a batch of other calls must give what it gave before
 		for k := 0; k < 3; k++ {
 			o := fns[r.Intn(len(fns))]
 			if o.name == "confidential.RangeProof+Verify+Unblind" && !r.Chance(20) {
